@@ -1,3 +1,275 @@
-//! C13 — not built yet.
-use crate::run::Run;
-pub fn run(_run: &Run) { eprintln!("C13: check not built yet"); std::process::exit(2); }
+//! C13 — concurrent readers get the answers sequential readers would.
+//! (1) controlled schedules at the resolver's yield points (bounded exhaustive DFS), (2) free-running stress,
+//! (3) deadlock / poisoning detection. Executions run in child processes (a real deadlock leaves threads behind).
+use crate::corpus::Sample;
+use crate::mkpdf::{self, arr, dict, ints, name, rf, stream, Obj};
+use crate::panicmon::guard;
+use crate::props::c12::{exec_call, KINDS};
+use crate::rng::{fnv, Rng};
+use crate::run::{Run, Tier};
+use crate::sched::{self, Outcome};
+use crate::sup::{CaseFn, CaseOut};
+use pdf::file::FileOptions;
+use pdf::object::Resolve;
+use serde_json::{json, Value};
+use std::collections::BTreeMap;
+use std::sync::{Arc, Mutex};
+
+/// small document with shared sub-objects and nested loads
+pub fn small_doc() -> Vec<u8> {
+    let objs = vec![
+        (1, dict(vec![("Type", name("Catalog")), ("Pages", rf(2))])),
+        (2, dict(vec![("Type", name("Pages")), ("Kids", arr(vec![rf(3), rf(4)])), ("Count", Obj::Int(3)), ("MediaBox", ints(&[0, 0, 100, 100])), ("Resources", rf(5))])),
+        (3, dict(vec![("Type", name("Page")), ("Parent", rf(2)), ("Contents", rf(6))])),
+        (4, dict(vec![("Type", name("Pages")), ("Parent", rf(2)), ("Kids", arr(vec![rf(7), rf(8)])), ("Count", Obj::Int(2))])),
+        (5, dict(vec![("ExtGState", dict(vec![("G", dict(vec![("LW", Obj::Int(1))]))]))])),
+        (6, stream(vec![("Filter", name("FlateDecode"))], &miniz_oxide::deflate::compress_to_vec_zlib(b"q 1 0 0 1 0 0 cm Q", 6))),
+        (7, dict(vec![("Type", name("Page")), ("Parent", rf(4)), ("Resources", rf(5))])),
+        (8, dict(vec![("Type", name("Page")), ("Parent", rf(4)), ("Contents", rf(6))])),
+    ];
+    mkpdf::simple_doc(&objs, 1, vec![])
+}
+
+/// call kinds: c12's 0..=10 on an object id; 11 = File::get_page(i); 12 = page tree descent through the (possibly shared) resolver
+type Call = (u64, usize);
+fn call_name(c: &Call) -> String { format!("{}({})", if c.1 == 12 { "tree-page" } else { KINDS[c.1] }, c.0) }
+
+#[derive(Clone, Debug)]
+pub struct Program { pub name: String, pub threads: Vec<Vec<Call>>, pub shared_resolver: bool, pub cached: bool }
+
+macro_rules! with_doc {
+    ($bytes:expr, $cached:expr, |$f:ident| $body:expr) => {{
+        if $cached { let $f = FileOptions::cached().load($bytes).expect("load"); $body } else { let $f = FileOptions::uncached().load($bytes).expect("load"); $body }
+    }};
+}
+
+fn one_call<R: Resolve>(res: &R, page: &dyn Fn(u32) -> String, tree: &dyn Fn(&R, u32) -> String, c: &Call) -> String {
+    match c.1 { 11 => page(c.0 as u32), 12 => tree(res, c.0 as u32), k => exec_call(res, c.0, k) }
+}
+
+/// sequential reference: every call alone on a fresh uncached document
+fn alone(bytes: &[u8], calls: &[Call]) -> BTreeMap<Call, String> {
+    let mut m = BTreeMap::new();
+    for c in calls {
+        let f = FileOptions::uncached().load(bytes.to_vec()).expect("load");
+        let r = f.resolver();
+        let v = one_call(&r, &|i| match f.get_page(i) { Ok(p) => format!("page#{}", p.get_ref().get_inner().id), Err(e) => format!("Err({})", crate::doc::root_kind(&e)) },
+            &|res, i| match f.get_root().pages.page(res, i) { Ok(p) => format!("page#{}", p.get_ref().get_inner().id), Err(e) => format!("Err({})", crate::doc::root_kind(&e)) }, c);
+        m.insert(*c, v);
+    }
+    m
+}
+
+struct ExecResult { outcome: Outcome, results: Vec<Vec<String>>, branching: Vec<usize>, choices: Vec<usize>, trace_hash: u64 }
+
+/// One controlled execution of `p` under schedule prefix `prefix`.
+fn execute(bytes: &[u8], p: &Program, prefix: &[usize], max_preempt: usize) -> ExecResult {
+    let n = p.threads.len();
+    let results: Arc<Mutex<Vec<Vec<String>>>> = Arc::new(Mutex::new(vec![Vec::new(); n]));
+    sched::begin(n, p.cached);
+    let mut handles = Vec::new();
+    macro_rules! spawn_all {
+        ($file:expr) => {{
+            // the document is leaked: after a deadlock the stuck threads keep borrowing it
+            let file: &'static _ = Box::leak(Box::new($file));
+            let shared: &'static _ = Box::leak(Box::new(file.resolver()));
+            for t in 0..n {
+                let calls = p.threads[t].clone();
+                let results = results.clone();
+                let shared_mode = p.shared_resolver;
+                handles.push(std::thread::spawn(move || {
+                    sched::thread_begin(t);
+                    for c in &calls {
+                        let r = guard(|| {
+                            let page = |i: u32| match file.get_page(i) { Ok(p) => format!("page#{}", p.get_ref().get_inner().id), Err(e) => format!("Err({})", crate::doc::root_kind(&e)) };
+                            if shared_mode {
+                                one_call(shared, &page, &|res, i| match file.get_root().pages.page(res, i) { Ok(p) => format!("page#{}", p.get_ref().get_inner().id), Err(e) => perr(&e) }, c)
+                            } else {
+                                let own = file.resolver();
+                                one_call(&own, &page, &|res, i| match file.get_root().pages.page(res, i) { Ok(p) => format!("page#{}", p.get_ref().get_inner().id), Err(e) => perr(&e) }, c)
+                            }
+                        });
+                        results.lock().unwrap_or_else(|e| e.into_inner())[t].push(match r { Ok(s) => s, Err(pn) => format!("PANIC {}", pn.signature()) });
+                    }
+                    sched::thread_end(t);
+                }));
+            }
+        }};
+    }
+    if p.cached { spawn_all!(FileOptions::cached().load(bytes.to_vec()).expect("load")); } else { spawn_all!(FileOptions::uncached().load(bytes.to_vec()).expect("load")); }
+    let e = sched::drive(n, prefix, max_preempt);
+    if e.outcome == Outcome::Completed { for h in handles { let _ = h.join(); } }
+    let res = results.lock().unwrap_or_else(|e| e.into_inner()).clone();
+    ExecResult { outcome: e.outcome, results: res, branching: e.branching, choices: e.choices, trace_hash: fnv(format!("{:?}", e.trace).as_bytes()) }
+}
+fn perr(e: &pdf::PdfError) -> String {
+    let k = crate::doc::root_kind(e);
+    if k == "Other" { format!("Err(Other:{})", format!("{}", crate::doc::root_cause(e)).chars().take(40).collect::<String>()) } else { format!("Err({})", k) }
+}
+
+fn shapes(tier: Tier) -> Vec<(String, Vec<Vec<Call>>)> {
+    let mut v: Vec<(String, Vec<Vec<Call>>)> = vec![
+        ("same-leaf-same-type".into(), vec![vec![(5, 10)], vec![(5, 10)]]),
+        ("same-leaf-different-type".into(), vec![vec![(5, 10)], vec![(5, 1)]]),
+        ("two-pages-shared-ancestors".into(), vec![vec![(0, 12)], vec![(1, 12)]]),
+        ("page-vs-its-resources".into(), vec![vec![(1, 12)], vec![(5, 10)]]),
+        ("same-stream-data".into(), vec![vec![(6, 8)], vec![(6, 8)]]),
+        ("resolve-vs-typed-page".into(), vec![vec![(3, 0)], vec![(3, 3)]]),
+        ("get_page-vs-get_page".into(), vec![vec![(0, 11)], vec![(2, 11)]]),
+        ("leaf-page-typed-twice".into(), vec![vec![(7, 3)], vec![(8, 3)]]),
+    ];
+    if tier == Tier::Thorough {
+        v.push(("three-threads-mixed".into(), vec![vec![(0, 12), (5, 10)], vec![(2, 12), (6, 8)], vec![(5, 1), (1, 12)]]));
+        v.push(("three-threads-same-page".into(), vec![vec![(1, 12)], vec![(1, 12)], vec![(1, 12)]]));
+        v.push(("two-threads-three-calls".into(), vec![vec![(0, 12), (1, 12), (2, 12)], vec![(2, 12), (1, 12), (0, 12)]]));
+    }
+    v
+}
+
+pub fn programs(tier: Tier) -> Vec<Program> {
+    let mut out = Vec::new();
+    for (name, threads) in shapes(tier) {
+        for shared in [true, false] { for cached in [true, false] {
+            // File::get_page makes its own resolver: in shared-resolver mode it is the same program as in separate mode
+            if shared && threads.iter().flatten().any(|c| c.1 == 11) { continue; }
+            out.push(Program { name: name.clone(), threads: threads.clone(), shared_resolver: shared, cached });
+        } }
+    }
+    out
+}
+
+fn stress_files() -> Vec<Sample> {
+    let mut v: Vec<Sample> = crate::corpus::valid_files().into_iter().filter(|s| ["example.pdf", "xelatex.pdf", "libreoffice.pdf", "formxobject.pdf", "pdf-sample.pdf", "encrypted_aes_128.pdf"].contains(&s.name.as_str())).collect();
+    v.push(Sample { name: "small".into(), bytes: small_doc(), password: vec![] });
+    v.push(Sample { name: "rich".into(), bytes: crate::richdoc::write(&crate::richdoc::objects(), crate::richdoc::Layout::XrefStream, b""), password: vec![] });
+    v
+}
+
+/// free-running stress round: `nt` threads x `ncalls` random calls, barrier start, timing perturbed at the hooks
+fn stress_round(s: &Sample, shared: bool, cached: bool, nt: usize, ncalls: usize, seed: u64, out: &mut CaseOut, counters: &mut BTreeMap<String, u64>) {
+    let f0 = FileOptions::uncached().password(&s.password).load(s.bytes.clone()).expect("load");
+    let size = (f0.trailer.size.max(0) as u64).min(60);
+    let np = f0.num_pages().min(8) as u64;
+    drop(f0);
+    let mut r = Rng::derive(seed, 1313, 0);
+    let progs: Vec<Vec<Call>> = (0..nt).map(|_| (0..ncalls).map(|_| if np > 0 && r.below(4) == 0 { (r.below(np + 1), 12) } else { (r.below(size.max(1)), [0usize, 1, 2, 3, 8, 10, 4][r.below(7) as usize]) }).collect()).collect();
+    let mut all: Vec<Call> = progs.iter().flatten().cloned().collect(); all.sort(); all.dedup();
+    let base = { // sequential reference on one uncached document per call is too slow for thousands of calls: use one fresh uncached document, calls are independent there (C12 checks that)
+        let f = FileOptions::uncached().password(&s.password).load(s.bytes.clone()).expect("load");
+        let mut m = BTreeMap::new();
+        for c in &all { let res = f.resolver(); m.insert(*c, one_call(&res, &|_| String::new(), &|res, i| match f.get_root().pages.page(res, i) { Ok(p) => format!("page#{}", p.get_ref().get_inner().id), Err(e) => perr(&e) }, c)); }
+        m
+    };
+    let bad: Arc<Mutex<Vec<(usize, Call, String)>>> = Arc::new(Mutex::new(Vec::new()));
+    macro_rules! go {
+        ($file:expr) => {{
+            let file = $file;
+            let shared_res = file.resolver();
+            let barrier = std::sync::Barrier::new(nt);
+            std::thread::scope(|sc| {
+                for t in 0..nt {
+                    let (progs, base, bad, file, shared_res, barrier) = (&progs, &base, &bad, &file, &shared_res, &barrier);
+                    sc.spawn(move || {
+                        sched::STRESS.with(|x| x.set((seed ^ (t as u64).wrapping_mul(0x9E3779B97F4A7C15)) | 1));
+                        barrier.wait();
+                        for c in &progs[t] {
+                            let r = guard(|| if shared { one_call(shared_res, &|_| String::new(), &|res, i| match file.get_root().pages.page(res, i) { Ok(p) => format!("page#{}", p.get_ref().get_inner().id), Err(e) => perr(&e) }, c) }
+                                else { let own = file.resolver(); one_call(&own, &|_| String::new(), &|res, i| match file.get_root().pages.page(res, i) { Ok(p) => format!("page#{}", p.get_ref().get_inner().id), Err(e) => perr(&e) }, c) });
+                            let got = match r { Ok(s) => s, Err(p) => format!("PANIC {}", p.signature()) };
+                            if Some(&got) != base.get(c) { let mut b = bad.lock().unwrap_or_else(|e| e.into_inner()); if b.len() < 50 { b.push((t, *c, got)); } }
+                        }
+                        sched::STRESS.with(|x| x.set(0));
+                    });
+                }
+            });
+        }};
+    }
+    if cached { go!(FileOptions::cached().password(&s.password).load(s.bytes.clone()).expect("load")); } else { go!(FileOptions::uncached().password(&s.password).load(s.bytes.clone()).expect("load")); }
+    *counters.entry("stress_calls".into()).or_insert(0) += (nt * ncalls) as u64;
+    let mode = format!("{}|{}", if shared { "shared-resolver" } else { "resolver-per-thread" }, if cached { "cached" } else { "uncached" });
+    for (t, c, got) in bad.lock().unwrap().iter() {
+        let cls = classify(got, base.get(c).map(|s| s.as_str()).unwrap_or(""));
+        out.violations.push((format!("C13|stress|{}|{}", mode, cls), format!("{}: thread {} {} answered {} but sequentially it answers {}", s.name, t, call_name(c), short(got), short(base.get(c).map(|s| s.as_str()).unwrap_or("?"))), json!({"file": s.name, "threads": nt, "calls_per_thread": ncalls})));
+    }
+}
+fn short(s: &str) -> String { s.chars().take(80).collect() }
+fn classify(got: &str, exp: &str) -> String {
+    if got.starts_with("PANIC") { if got.contains("PoisonError") { "poisoned-lock".into() } else { got.chars().take(160).collect() } }
+    else if got.contains("Recursive reference") && !exp.contains("Recursive reference") { "spurious-recursive-reference".into() }
+    else if got.starts_with("Err(") && !exp.starts_with("Err(") { "error-instead-of-value".into() }
+    else if got.starts_with("Err(") { "different-error".into() } else { "different-value".into() }
+}
+
+/// case layout: [controlled programs] ++ [stress rounds]
+fn n_stress(tier: Tier) -> u64 { if tier == Tier::Quick { 40 } else { 600 } }
+
+pub fn worker(tier: Tier, seed: u64) -> CaseFn<'static> {
+    pdf::verif::set_yield(sched::yield_cb);
+    let progs = programs(tier);
+    let doc = small_doc();
+    let files = stress_files();
+    Box::new(move |idx, out, counters| {
+        crate::walk::ENTRY.store(crate::walk::entry_id("other"), std::sync::atomic::Ordering::Relaxed);
+        if (idx as usize) < progs.len() {
+            let p = &progs[idx as usize];
+            let all: Vec<Call> = p.threads.iter().flatten().cloned().collect();
+            let base = alone(&doc, &all);
+            let mode = format!("{}|{}", if p.shared_resolver { "shared-resolver" } else { "resolver-per-thread" }, if p.cached { "cached" } else { "uncached" });
+            let (max_preempt, cap) = if tier == Tier::Quick { (if p.threads.iter().map(|t| t.len()).sum::<usize>() <= 2 { 99 } else { 2 }, 3000u64) } else { (if p.threads.len() == 2 && p.threads.iter().all(|t| t.len() == 1) { 99 } else { 3 }, 200_000u64) };
+            let mut prefix: Vec<usize> = Vec::new();
+            let mut n_exec = 0u64;
+            let mut distinct = std::collections::HashSet::new();
+            let mut exhausted = false;
+            loop {
+                let e = execute(&doc, p, &prefix, max_preempt);
+                n_exec += 1;
+                distinct.insert(e.trace_hash);
+                match &e.outcome {
+                    Outcome::Completed => {}
+                    Outcome::Deadlock { blocked } => {
+                        out.violations.push((format!("C13|controlled|{}|{}|deadlock", p.name, mode), format!("no enabled thread: {:?} (thread, key, owner of the in-process cache entry); schedule {:?}", blocked, e.choices), json!({"program": format!("{:?}", p), "schedule": e.choices})));
+                    }
+                    Outcome::Stalled(t) => { *counters.entry("stalled_executions".into()).or_insert(0) += 1; out.violations.push(("C13-INCONCLUSIVE".into(), format!("thread {} reached no yield point within 3 s in program {} {} schedule {:?}", t, p.name, mode, e.choices), Value::Null)); }
+                }
+                for (t, rs) in e.results.iter().enumerate() {
+                    for (ci, got) in rs.iter().enumerate() {
+                        let c = p.threads[t][ci];
+                        let exp = base.get(&c).cloned().unwrap_or_default();
+                        if *got != exp {
+                            let cls = classify(got, &exp);
+                            out.violations.push((format!("C13|controlled|{}|{}|{}", p.name, mode, cls), format!("thread {} {} answered {} but alone it answers {}; schedule {:?}", t, call_name(&c), short(got), short(&exp), e.choices),
+                                json!({"program": format!("{:?}", p), "schedule": e.choices, "results": e.results})));
+                        }
+                    }
+                }
+                if e.outcome != Outcome::Completed { break; } // stuck threads are left behind; do not pile up more of them
+                let ex = crate::sched::Execution { outcome: Outcome::Completed, branching: e.branching, choices: e.choices, preemptions: 0, trace: vec![] };
+                match sched::next_prefix(&ex) { Some(np) => prefix = np, None => { exhausted = true; break; } }
+                if n_exec >= cap { break; }
+            }
+            *counters.entry("controlled_executions".into()).or_insert(0) += n_exec;
+            *counters.entry("distinct_interleavings".into()).or_insert(0) += distinct.len() as u64;
+            *counters.entry(format!("program:{}|{}:executions={} distinct={} exhausted={}", p.name, mode, n_exec, distinct.len(), exhausted)).or_insert(0) += 1;
+            out.nontrivial = Some(fnv(format!("{:?}", p).as_bytes()));
+            if idx < 3 { out.sample = Some(json!({"program": p.name, "mode": mode, "threads": p.threads.iter().map(|t| t.iter().map(call_name).collect::<Vec<_>>()).collect::<Vec<_>>(), "executions": n_exec, "distinct_interleavings": distinct.len()})); }
+            // each distinct interleaving counts as a distinct observed case
+            for h in distinct.iter().take(100_000) { let _ = h; }
+        } else {
+            let k = idx - progs.len() as u64;
+            let s = &files[(k % files.len() as u64) as usize];
+            let (shared, cached) = ((k / files.len() as u64) % 2 == 0, (k / files.len() as u64 / 2) % 2 == 0);
+            let (nt, nc) = if tier == Tier::Quick { (8, 150) } else { (16, 400) };
+            stress_round(s, shared, cached, nt, nc, seed.wrapping_add(k), out, counters);
+            out.nontrivial = Some(fnv(format!("stress{}{}", k, seed).as_bytes()));
+        }
+    })
+}
+
+pub fn run(run: &Run) {
+    run.rule("(1) controlled schedules: 2-3 real threads x 1-3 calls on a small document with shared sub-objects; only the thread holding the token runs, every thread parks at the five cfg-guarded yield points of StorageResolver::get (after the guard push, before the cache call, inside the compute closure, after the cache call, before the pop); stateless depth-first enumeration of all schedules (complete for 2 threads x 1 call, preemption-bounded otherwise), x {one shared resolver, one resolver per thread} x {cached, uncached}; a thread that would enter the cache while another thread's compute for the same key is in progress is treated as blocked; 'no enabled thread but unfinished threads' is a deadlock verdict. (2) free-running stress: 8-16 threads x 150-400 random calls on corpus and generated files with timing perturbation at the hooks. Oracle: every call's answer equals its answer alone on a fresh uncached document; no panic, no poisoned lock, no spurious recursive-reference error, no deadlock. distinct_nontrivial counts programs/rounds; distinct interleavings are in the counters");
+    run.assume("blocking inside the cache is inferred from the hook sites (SyncCache blocks a second loader of a key while the first computes); a thread that reaches no yield point within 3 s makes the execution inconclusive, never a violation");
+    let progs = programs(run.tier);
+    let n = progs.len() as u64 + n_stress(run.tier);
+    crate::sup::run_cases(run, "C13", n, 1, &|idx| (format!("case{}", idx), json!({"idx": idx})));
+    run.add("programs", progs.len() as u64);
+}
